@@ -79,10 +79,11 @@ func (o regOp) String() string {
 	case "send":
 		return fmt.Sprintf("Send(%s)", o.Typ)
 	case "reopen":
+		c := []string{"", ",ctx-cancelled", ",ctx-deadline-passed"}[o.Thr%3]
 		if o.FailNode != "" {
-			return "Reopen(fail=" + o.FailNode + ")"
+			return "Reopen(fail=" + o.FailNode + c + ")"
 		}
-		return "Reopen()"
+		return "Reopen(" + strings.TrimPrefix(c, ",") + ")"
 	case "setthr":
 		return fmt.Sprintf("SetSuccessThreshold(%s,%d)", o.Typ, o.Thr)
 	}
@@ -289,7 +290,19 @@ func (w *regWorld) apply(op regOp) (ms []mismatch, failed bool) {
 				o.ReopenErr = fmt.Errorf("injected reopen error of %s", o.Label)
 			}
 		}
-		err := w.broker.Reopen(ctx)
+		rctx := ctx
+		switch op.Thr {
+		case 1: // a context that is already done: Reopen still has to reach every node
+			c, cancel := context.WithCancel(ctx)
+			cancel()
+			rctx = c
+		case 2: // a context with a deadline long past
+			c, cancel := context.WithTimeout(ctx, 1)
+			defer cancel()
+			simrt.Sleep(10, "reopen:let-deadline-pass")
+			rctx = c
+		}
+		err := w.broker.Reopen(rctx)
 		failed = err != nil
 		var failing *recNode
 		must := map[*recNode]bool{}
@@ -633,6 +646,7 @@ func runRegistrySeqOps(rc *RunCtx, prop string, fixed []regOp) {
 					o.FailNode = cands[c]
 				}
 			}
+			o.Thr = []int{0, 0, 1, 2}[tp.Choose(4, "reopen-ctx")]
 			return o
 		default:
 			return regOp{Kind: "setthr", Typ: typ, Thr: tp.Choose(4, "thr") - 1}
@@ -843,6 +857,7 @@ func runReopenConc(rc *RunCtx) {
 		failing.fail = fmt.Errorf("injected reopen error of %s", failing.label)
 	}
 	nCallers := 2 + tp.Choose(2, "ncallers")
+	cancelled := tp.Choose(3, "ctx-cancelled") == 0
 	type rcall struct {
 		task int
 		err  error
@@ -855,7 +870,13 @@ func runReopenConc(rc *RunCtx) {
 		sim.Spawn(fmt.Sprintf("reopener%d", c), func() {
 			simrt.Yield("reopener:start")
 			calls[c].task = simrt.TaskID()
-			calls[c].err = b.Reopen(context.Background())
+			rctx := context.Background()
+			if c == 0 && cancelled {
+				cc, cancel := context.WithCancel(rctx)
+				cancel()
+				rctx = cc
+			}
+			calls[c].err = b.Reopen(rctx)
 			calls[c].done = true
 		})
 	}
